@@ -1692,6 +1692,7 @@ class LegPipe(LegCharge):
         res = self.copy()  # shallow
         res.qconj = -1
         res._set_charges(self.chinfo.make_valid(-self.charges))
+        res.sorted = res.is_sorted()  # negating the charges reverses their order
         return res
 
     def sort(self, *args, **kwargs):
